@@ -166,3 +166,19 @@ pub fn permute<T>(items: &mut Vec<T>) {
         items.push(slots[idx].take().unwrap());
     }
 }
+
+/// Like [`permute`], but with a known starting order.
+///
+/// If a handler is installed, `items` is first sorted by `key` so that the
+/// handler's permutation refers to a canonical order rather than to the
+/// random order the items happen to be in. Without a handler nothing
+/// happens.
+pub fn permute_sorted<T, K: Ord>(
+    items: &mut Vec<T>, key: impl Fn(&T) -> K
+) {
+    if PERMUTE.read().unwrap().is_none() {
+        return
+    }
+    items.sort_by_key(|item| key(item));
+    permute(items)
+}
